@@ -291,12 +291,16 @@ def _judge_csv(case, ctx):
                 b2 = _bytes(t2)
                 if b1 != b2:
                     out.append({'kind': 'append-bytes-differ', 'to+append': repr(b1[:200]), 'to(cat)': repr(b2[:200])})
+        bom_only = _differs_only_in_boms(b1, use_enc, want_text) if out else None
     finally:
         _cleanup(t1, t2)
     for o in out:
         o['source'] = case['source']
         o['encoding'] = enc
         o['appends'] = len(extra)
+        # the file holds exactly the expected text once byte-order marks are disregarded (one too many in mid-stream, or none at all):
+        # what the known findings F13 / F17 are about, and nothing else
+        o['differs-only-in-byte-order-marks'] = bom_only
     return out
 
 
@@ -342,6 +346,24 @@ def _judge_pickle(case, ctx):
     finally:
         _cleanup(t1, t2)
     return out
+
+
+def _differs_only_in_boms(data, enc, want_text):
+    import sys
+    base = {'utf-16': 'utf-16-%s', 'utf-32': 'utf-32-%s'}.get(enc)
+    try:
+        if base:
+            width = 2 if enc == 'utf-16' else 4
+            marks = {('utf-16', b'\xff\xfe'): 'le', ('utf-16', b'\xfe\xff'): 'be', ('utf-32', b'\xff\xfe\x00\x00'): 'le', ('utf-32', b'\x00\x00\xfe\xff'): 'be'}
+            order = marks.get((enc, data[:width]), 'le' if sys.byteorder == 'little' else 'be')
+            txt = data.decode(base % order)
+        elif enc == 'utf-8-sig':
+            txt = data.decode('utf-8')
+        else:
+            return False
+    except UnicodeError:
+        return False
+    return txt.replace('\ufeff', '') == want_text.replace('\ufeff', '')
 
 
 def _jsonify(v):
